@@ -289,3 +289,251 @@ fn c15_capacity_arithmetic() {
     assert!(cap * BUFFER_MULTIPLIER < (1 << 20));
     kani::cover!(k == 10);
 }
+
+// ---------------------------------------------------------------------------------------------
+// serialization: C11/C12/C18 round trip + layout, C13 float / compat encodings, C14 arbitrary bytes
+// ---------------------------------------------------------------------------------------------
+use crate::verif_kani_common::stub_format;
+
+fn rd_u16(b: &[u8], o: usize) -> u16 {
+    (b[o] as u16) | ((b[o + 1] as u16) << 8)
+}
+fn rd_u32(b: &[u8], o: usize) -> u32 {
+    (rd_u16(b, o) as u32) | ((rd_u16(b, o + 2) as u32) << 16)
+}
+fn rd_u64(b: &[u8], o: usize) -> u64 {
+    (rd_u32(b, o) as u64) | ((rd_u32(b, o + 4) as u64) << 32)
+}
+
+fn any_finite() -> f64 {
+    let x: f64 = kani::any();
+    kani::assume(x.is_finite());
+    x
+}
+
+/// digest with N centroids (already compressed: empty buffer), fields symbolic, floats by bit pattern
+fn any_digest<const N: usize>() -> TDigestMut {
+    let mut cs: Vec<Centroid> = Vec::with_capacity(N);
+    let mut total = 0u64;
+    let mut i = 0;
+    while i < N {
+        let w: u32 = kani::any();
+        kani::assume(w >= 1);
+        // a digest of total weight 1 is the single-value form; keep N >= 2 cases away from it
+        cs.push(Centroid { mean: any_finite(), weight: nz(w as u64) });
+        total += w as u64;
+        i += 1;
+    }
+    let k: u16 = kani::any();
+    kani::assume(k >= 10);
+    TDigestMut {
+        k,
+        reverse_merge: kani::any(),
+        min: any_finite(),
+        max: any_finite(),
+        centroids: cs,
+        centroids_weight: total,
+        centroids_capacity: 0,
+        buffer: Vec::new(),
+    }
+}
+
+fn roundtrip_case<const N: usize>() {
+    let mut d = any_digest::<N>();
+    if N == 1 {
+        // single value: weight 1, min = max = the value
+        d.centroids[0].weight = nz(1);
+        d.centroids_weight = 1;
+        d.max = d.min;
+        d.centroids[0].mean = d.min;
+    } else if N >= 2 {
+        kani::assume(d.centroids_weight >= 2);
+    }
+    let k = d.k;
+    let rev = d.reverse_merge;
+    let (min, max) = (d.min, d.max);
+    let bytes = d.serialize();
+    // ---- spec decoder (C12): t-digest layout of datasketches-java/cpp
+    assert!(bytes[1] == 1 && bytes[2] == 20, "serial version / family id");
+    assert!(rd_u16(&bytes, 3) == k, "k field");
+    assert!(rd_u16(&bytes, 6) == 0, "unused field");
+    let flags = bytes[5];
+    assert!((flags & 4 != 0) == rev, "reverse-merge flag");
+    if N == 0 {
+        assert!(bytes.len() == 8 && bytes[0] == 1 && flags & 1 != 0 && flags & 2 == 0, "empty image");
+    } else if N == 1 {
+        assert!(bytes.len() == 16 && bytes[0] == 1 && flags & 1 == 0 && flags & 2 != 0, "single-value image");
+        assert!(rd_u64(&bytes, 8) == min.to_bits(), "single value field");
+    } else {
+        assert!(bytes.len() == 32 + 16 * N, "image length is 8 + 8 + 16 + 16 * centroids");
+        assert!(bytes[0] == 2 && flags & 3 == 0, "multi-centroid preamble");
+        assert!(rd_u32(&bytes, 8) as usize == N && rd_u32(&bytes, 12) == 0, "centroid / buffered counts");
+        assert!(rd_u64(&bytes, 16) == min.to_bits() && rd_u64(&bytes, 24) == max.to_bits(), "min / max fields");
+        let mut i = 0;
+        while i < N {
+            assert!(rd_u64(&bytes, 32 + 16 * i) == d.centroids[i].mean.to_bits(), "centroid mean field");
+            assert!(rd_u64(&bytes, 40 + 16 * i) == d.centroids[i].weight.get(), "centroid weight field");
+            i += 1;
+        }
+    }
+    // ---- round trip (C11)
+    let r = TDigestMut::deserialize(&bytes, false);
+    assert!(r.is_ok(), "own image rejected");
+    let g = r.unwrap();
+    assert!(g.k == k, "k changed");
+    assert!(g.total_weight() == d.total_weight(), "total weight changed");
+    assert!(g.centroids.len() == N && g.buffer.is_empty());
+    if N > 0 {
+        assert!(g.min.to_bits() == min.to_bits(), "min changed");
+        assert!(g.reverse_merge == rev, "merge direction flag changed");
+        let mut i = 0;
+        while i < N {
+            assert!(g.centroids[i].mean.to_bits() == d.centroids[i].mean.to_bits() && g.centroids[i].weight == d.centroids[i].weight, "centroid changed");
+            i += 1;
+        }
+    }
+    if N >= 2 {
+        assert!(g.max.to_bits() == max.to_bits(), "max changed");
+    }
+    core::mem::forget((d, g, bytes));
+}
+
+//@ props: C11 C12 C18
+//@ tier: quick
+//@ timeout: 1800
+//@ functions: tdigest::TDigestMut::serialize
+//@ functions: tdigest::TDigestMut::deserialize
+//@ bounds: compressed digests with 0, 1 (single value), 2 and 3 centroids; k, flags, min, max, means (any finite f64 bit pattern) and weights (1..2^32) symbolic
+//@ desc: the image follows the t-digest layout (preLongs 1/2, serVer 1, family 20, k u16 @3, flags @5 empty|single|reverse, counts @8/@12, min/max f64 @16/@24, then (mean f64, weight u64) pairs) as read by an independent decoder, its length is 8 (+8) (+16+16n), and deserialize(serialize(d)) restores every field bit for bit
+#[kani::proof]
+#[kani::unwind(60)]
+#[kani::stub(alloc::fmt::format, stub_format)]
+fn c11_tdigest_roundtrip_layout() {
+    roundtrip_case::<0>();
+    roundtrip_case::<1>();
+    roundtrip_case::<2>();
+    roundtrip_case::<3>();
+    kani::cover!(true);
+}
+
+//@ props: C14
+//@ tier: quick
+//@ timeout: 1800
+//@ functions: tdigest::TDigestMut::deserialize
+//@ functions: tdigest::TDigestMut::deserialize_compat
+//@ bounds: every byte string of length 0..=64, both the f64 and the f32 reading mode, including the two big-endian reference-implementation (compat) encodings
+//@ desc: deserialize returns Ok or Err without panic / overflow for every byte string; an Ok value has finite centroid means and non-zero weights
+#[kani::proof]
+#[kani::unwind(8)]
+#[kani::stub(alloc::fmt::format, stub_format)]
+fn c14_tdigest_any_bytes() {
+    let img: [u8; 64] = kani::any();
+    let len: usize = kani::any();
+    kani::assume(len <= 64);
+    let is_f32: bool = kani::any();
+    let r = TDigestMut::deserialize(&img[..len], is_f32);
+    kani::cover!(r.is_ok());
+    kani::cover!(r.is_err());
+    if let Ok(g) = r {
+        kani::cover!(g.centroids.len() == 2);
+        assert!(g.k >= 10);
+        let mut i = 0;
+        while i < g.centroids.len() && i < 3 {
+            assert!(g.centroids[i].mean.is_finite());
+            i += 1;
+        }
+        core::mem::forget(g);
+    } else {
+        core::mem::forget(r);
+    }
+}
+
+fn put_be_f64(b: &mut [u8], o: usize, v: f64) {
+    let x = v.to_bits();
+    let mut i = 0;
+    while i < 8 {
+        b[o + i] = (x >> (56 - 8 * i)) as u8;
+        i += 1;
+    }
+}
+fn put_le_f32(b: &mut [u8], o: usize, v: f32) {
+    let x = v.to_bits();
+    let mut i = 0;
+    while i < 4 {
+        b[o + i] = (x >> (8 * i)) as u8;
+        i += 1;
+    }
+}
+
+//@ props: C13
+//@ tier: quick
+//@ timeout: 1800
+//@ functions: tdigest::TDigestMut::deserialize
+//@ functions: tdigest::TDigestMut::deserialize_compat
+//@ bounds: spec-encoded images of a digest with 2 centroids: (a) the f32 variant of the DataSketches layout (min, max, means as f32, weights as u32), (b) the reference-implementation big-endian "verbose" encoding (type 1: doubles); means finite, weights 1..2^20, k 10..=1000
+//@ desc: the float encoding and the reference implementation's big-endian encoding are read back to the state they encode: k, min, max, centroid means and weights, total weight
+#[kani::proof]
+#[kani::unwind(12)]
+#[kani::stub(alloc::fmt::format, stub_format)]
+fn c13_tdigest_foreign_encodings() {
+    let k: u16 = kani::any();
+    kani::assume(k >= 10 && k <= 1000);
+    let w0: u32 = kani::any();
+    let w1: u32 = kani::any();
+    kani::assume(w0 >= 1 && w1 >= 1 && w0 <= (1 << 20) && w1 <= (1 << 20));
+    // (a) f32 layout
+    let m0: f32 = kani::any();
+    let m1: f32 = kani::any();
+    let mn: f32 = kani::any();
+    let mx: f32 = kani::any();
+    kani::assume(m0.is_finite() && m1.is_finite() && mn.is_finite() && mx.is_finite());
+    let mut img = [0u8; 40];
+    img[0] = 2;
+    img[1] = 1;
+    img[2] = 20;
+    img[3] = k as u8;
+    img[4] = (k >> 8) as u8;
+    img[8] = 2;
+    put_le_f32(&mut img, 16, mn);
+    put_le_f32(&mut img, 20, mx);
+    put_le_f32(&mut img, 24, m0);
+    img[28] = w0 as u8;
+    img[29] = (w0 >> 8) as u8;
+    img[30] = (w0 >> 16) as u8;
+    img[31] = (w0 >> 24) as u8;
+    put_le_f32(&mut img, 32, m1);
+    img[36] = w1 as u8;
+    img[37] = (w1 >> 8) as u8;
+    img[38] = (w1 >> 16) as u8;
+    img[39] = (w1 >> 24) as u8;
+    let r = TDigestMut::deserialize(&img, true);
+    assert!(r.is_ok(), "valid f32 image rejected");
+    let g = r.unwrap();
+    assert!(g.k == k && g.centroids.len() == 2 && g.total_weight() == w0 as u64 + w1 as u64, "f32 image: k / centroid count / weight");
+    assert!(g.min == mn as f64 && g.max == mx as f64, "f32 image: min / max");
+    assert!(g.centroids[0].mean == m0 as f64 && g.centroids[0].weight.get() == w0 as u64 && g.centroids[1].mean == m1 as f64 && g.centroids[1].weight.get() == w1 as u64, "f32 image: centroids");
+    core::mem::forget(g);
+    // (b) reference implementation, verbose encoding: BE i32 type=1, f64 min, f64 max, f64 compression, i32 n, n x (f64 weight, f64 mean)
+    let d0 = any_finite();
+    let d1 = any_finite();
+    let dmin = any_finite();
+    let dmax = any_finite();
+    let mut img = [0u8; 64];
+    img[3] = 1;
+    put_be_f64(&mut img, 4, dmin);
+    put_be_f64(&mut img, 12, dmax);
+    put_be_f64(&mut img, 20, k as f64);
+    img[31] = 2;
+    put_be_f64(&mut img, 32, w0 as f64);
+    put_be_f64(&mut img, 40, d0);
+    put_be_f64(&mut img, 48, w1 as f64);
+    put_be_f64(&mut img, 56, d1);
+    let r = TDigestMut::deserialize(&img, false);
+    assert!(r.is_ok(), "valid reference-implementation image rejected");
+    let g = r.unwrap();
+    assert!(g.k == k && g.centroids.len() == 2 && g.total_weight() == w0 as u64 + w1 as u64, "compat image: k / count / weight");
+    assert!(g.min.to_bits() == dmin.to_bits() && g.max.to_bits() == dmax.to_bits(), "compat image: min / max");
+    assert!(g.centroids[0].mean.to_bits() == d0.to_bits() && g.centroids[1].mean.to_bits() == d1.to_bits() && g.centroids[0].weight.get() == w0 as u64, "compat image: centroids");
+    core::mem::forget(g);
+    kani::cover!(true);
+}
